@@ -126,8 +126,9 @@ def wiring(run, P):
         if 'common::parse::find_path' not in calls or not any((c or '').endswith("PathMutImpl::<'a, P>::new") for c in calls):
             run.violation('wiring|path_mut', f'{P.where(b)} path_mut does not create the handle from parse::find_path')
     nb = P.body(pathmut.PRE + 'new')
-    if nb is None or 'common::parse::find_authority' not in [mir.callee(t) for _, t in P.calls(nb)]:
-        run.violation('wiring|follows_authority', 'PathMutImpl::new does not derive follows_authority from parse::find_authority on the prefix')
+    pr = pathmut.new_wiring(P)
+    if pr is not None:
+        run.violation('wiring|follows_authority', f'{P.where(nb) if nb else "path_mut.rs"} PathMutImpl::new: {pr}')
     # composites add no splice of their own
     for c in COMPOSITES:
         cb = P.body(pathmut.PRE + c)
@@ -174,6 +175,15 @@ def main(run):
     for pr in probs:
         run.violation(f'symbolic|append|{pr[:90]}', f'{P.where(ab) if ab else "path_mut.rs"} PathMutImpl::symbolic_append: {pr}')
     run.floor('symbolic_append_tail_paths', 2, 'paths from the end of the loop of symbolic_append to its return')
+    # the public wrappers PathMut::symbolic_push (both families) repeat the tail rule on their own
+    for famn in ('uri', 'iri'):
+        wfn = f"{famn}::path_mut::PathMut::<'a>::symbolic_push"
+        probs, wst = symstep.analyse_wrapper_push(P, wfn)
+        run.count('symbolic_wrapper_tail_paths', wst.get('tail_paths', 0))
+        wb = P.bodies.get(wfn)
+        for pr in probs:
+            run.violation(f'symbolic|wrapper|{famn}|{pr[:80]}', f'{P.where(wb) if wb else wfn} {wfn}: {pr}')
+    run.floor('symbolic_wrapper_tail_paths', 4, 'tail paths of the two PathMut::symbolic_push wrappers')
     # frame: after every handle operation the decomposition of the enclosing buffer is "path = the edited window, every other
     # component unchanged"; an absolute path stays absolute, a relative one relative (Engine D3)
     from .. import pathclosure
